@@ -35,7 +35,7 @@ func runC04(c *Ctx) error {
 		if why, sig := judgeInbound(o, obs); why != "" {
 			c.oracleFail(why+" ["+tag+"]", sig, replay)
 		}
-		if obs.PeakAlloc > uint64(4*limit)+(2<<20)+uint64(2*len(stream)) {
+		if obs.PeakAlloc > allocBudget(limit, len(stream)) {
 			c.oracleFail(fmt.Sprintf("allocated %d bytes while reading with limit %d [%s]", obs.PeakAlloc, limit, tag), "over-allocation", replay)
 		}
 		inboundCase(c, spec, conn, stream, o, obs, tag)
